@@ -5,9 +5,12 @@ from __future__ import annotations
 from hypothesis import strategies as st
 
 from vlib import enumer, gen
-from vlib.build import build
+from vlib.build import ALPHA, build
 from vlib.core import Part
 from vlib.observe import walk
+
+from nutree import Tree  # noqa: E402
+from nutree.node import Node  # noqa: E402
 
 ID = "C10"
 LEVEL = "exploration"
@@ -49,9 +52,26 @@ def same_list(a, b):
     return len(a) == len(b) and all(x is y for x, y in zip(a, b))
 
 
+class LoudNode(Node):
+    """a custom node class (Tree(factory=...)) that defines its own display name"""
+
+    @property
+    def name(self):
+        return f"{self.data}".upper() + "!"
+
+
+def namef(x):
+    # the documented name of a node is str(data) - unless the tree's node class says otherwise
+    return f"{x.data}".upper() + "!" if type(x) is LoudNode else str(x.data)
+
+
 def run(case, rec):
     spec = case["spec"]
-    tree, nodes = build(spec)
+    if case.get("factory"):
+        tree, nodes = build(spec, tree=Tree("T", factory=LoudNode))
+        rec.cls("custom-node-class-with-own-name")
+    else:
+        tree, nodes = build(spec)
     check_tree(tree, rec, len(nodes))
 
 
@@ -182,15 +202,15 @@ def check_tree(tree, rec, n_expected):
                 got = n.get_parent_list(add_self=add_self, bottom_up=bottom_up)
                 chk("get_parent_list", same_list(got, exp), [me, add_self, bottom_up, nm(got), nm(exp)])
         chk("depth==len(parent_list)+1", n.depth() == len(n.get_parent_list()) + 1)
-        exp_path = "/" + "/".join(str(x.data) for x in anc + [n])
+        exp_path = "/" + "/".join(namef(x) for x in anc + [n])
         chk("path", n.path == exp_path and n.get_path() == exp_path, [me, n.path, exp_path])
-        exp_path2 = "/" + "/".join(str(x.data) for x in anc)
+        exp_path2 = "/" + "/".join(namef(x) for x in anc)
         chk("get_path:add_self=False", n.get_path(add_self=False) == exp_path2, [me, n.get_path(add_self=False), exp_path2])
-        chk("get_path:separator", n.get_path(separator="|") == "|" + "|".join(str(x.data) for x in anc + [n]), [me])
+        chk("get_path:separator", n.get_path(separator="|") == "|" + "|".join(namef(x) for x in anc + [n]), [me])
         # all option combinations: add_self x separator x repr
         for add_self in (True, False):
             for sep in ("/", " > "):
-                for rp, fn in (("{node.data_id}", lambda x: f"{x.data_id}"), ("<{node.name}>", lambda x: f"<{x.data}>")):
+                for rp, fn in (("{node.data_id}", lambda x: f"{x.data_id}"), ("<{node.name}>", lambda x: f"<{namef(x)}>")):
                     exp_c = sep + sep.join(fn(x) for x in (anc + [n] if add_self else anc))
                     got_c = n.get_path(add_self=add_self, separator=sep, repr=rp)
                     chk("get_path:add_self,separator,repr", got_c == exp_c, [me, add_self, sep, rp, got_c, exp_c])
@@ -232,13 +252,17 @@ def enum_cases(tier):
         yield {"spec": spec}
 
 
+# (names that contain the path separators in use: "/", "|", " > ")
+C10_ALPHA = ALPHA + ["x/y", "p|q", "a > b", "/"]
+
+
 @st.composite
 def hyp_cases(draw, tier):
     mode = draw(st.sampled_from(["clones", "eqsib", "eqsib", "deep"]))
     if mode == "deep":
-        spec = draw(gen.forest_specs(max_nodes=24, max_depth=10, max_width=3, min_nodes=3))
-        return {"spec": spec}
-    spec = draw(gen.forest_specs(max_nodes=18, max_depth=5, max_width=5, min_nodes=3))
+        spec = draw(gen.forest_specs(max_nodes=24, max_depth=10, max_width=3, min_nodes=3, alphabet=C10_ALPHA))
+        return {"spec": spec, "factory": draw(st.sampled_from([False, False, True]))}
+    spec = draw(gen.forest_specs(max_nodes=18, max_depth=5, max_width=5, min_nodes=3, alphabet=C10_ALPHA))
     if mode == "eqsib":
         # give some nodes the data of one of their siblings under a distinct explicit data_id
         counter = [0]
@@ -254,7 +278,7 @@ def hyp_cases(draw, tier):
                 rec_(n[1])
 
         rec_(spec)
-    return {"spec": spec}
+    return {"spec": spec, "factory": draw(st.sampled_from([False, False, True]))}
 
 
 def run_deep_chain(case, rec):
